@@ -91,6 +91,9 @@ def r1_pairing(ctx):
         ctx.lost(rid, "two calls of piece_square_sum_for_player in piece_square_value (found %d)" % len(calls))
         return
     seen = {}
+    if any(len(t[2]) != 2 for b, t in calls):
+        ctx.lost(rid, "piece_square_sum_for_player(player, table) with two arguments (found %s): the pairing of players and tables is expressed differently" % sorted({len(t[2]) for b, t in calls}))
+        return
     for b, t in calls:
         player, tab = t[2]
         pl = player[1] if player[0] == "&" else player
@@ -513,6 +516,40 @@ def affine_mul(t, syms):
     return affine(t, syms)
 
 
+def r6_square_transforms(ctx):
+    """a square index computed for the other colour is the vertical mirror, not the rotation"""
+    rid = "C11.R6"
+    ctx.rule(rid, "in the heuristic modules a square index is never transformed by `63 - sq` (180 degree rotation: files mirrored too); viewing a table from the other side of the board is `sq ^ 56`. The matcher is exercised by the table index projections it sees on every run", floor=1)
+    prog = ctx.prog
+    idx_uses, rot, mir = 0, [], 0
+    for k, f in sorted(prog.fns.items()):
+        if not k.startswith(H) or f.get("test") or f["kind"] == "promoted":
+            continue
+        for b in f["blocks"]:
+            if b["cleanup"]:
+                continue
+            for st in b["stmts"]:
+                rv = st["rv"]
+                for a in rv.get("a", []):
+                    if a.get("k") in ("copy", "move") and any(isinstance(e, dict) and "idx" in e for e in a["pl"]["p"]):
+                        idx_uses += 1
+                if st["dst"] is not None and any(isinstance(e, dict) and "idx" in e for e in st["dst"]["p"]):
+                    idx_uses += 1
+                if rv["op"] == "bin":
+                    op = rv["bop"].replace("WithOverflow", "").replace("Unchecked", "")
+                    consts = [a.get("v") for a in rv["a"] if a.get("k") == "const"]
+                    if op == "Sub" and rv["a"][0].get("k") == "const" and rv["a"][0].get("v") == 63:
+                        rot.append((k, st["line"], f))
+                    if op == "BitXor" and 56 in consts:
+                        mir += 1
+    ctx.ob(rid, "matcher-control", idx_uses >= 3, "" if idx_uses >= 3 else "no indexed table reads seen in the heuristic modules (%d)" % idx_uses, "", sample={"indexed_accesses": idx_uses, "xor_56": mir})
+    for k, line, f in rot:
+        ctx.ob(rid, "rotation|%s" % k.rsplit("::", 1)[-1], False,
+               "%s computes `63 - square`: that rotates the board by 180 degrees (a5 -> h4), the colour flip is the vertical mirror `square ^ 56` (a5 -> a4); tables that are not left-right symmetric are then read on the wrong file for one colour" % f["display"],
+               ctx.where(f, line))
+    ctx.ob(rid, "no-rotation", not rot, "" if not rot else "%d rotation(s) of a square index" % len(rot), "")
+
+
 def run(ctx):
     r1_tables(ctx)
     r1_pairing(ctx)
@@ -520,6 +557,7 @@ def run(ctx):
     r3_material(ctx)
     r4_terminal(ctx)
     r5_mate_distance(ctx)
+    r6_square_transforms(ctx)
     # 'a checkmated side to move always receives a losing mate score': no other rule of the evaluator may take
     # precedence over the mate branch (shared with C05.R3)
     from . import c05
